@@ -1,11 +1,11 @@
-\* quick: 2 objects, 2 contents, 3 server versions (new sessions, stale caches), 2 kills, 4 client runs
+\* thorough, part 2: 3 objects, 3 server versions, 3 kills, 5 client runs
 SPECIFICATION Spec
 CONSTANTS
-  NObj = 2
+  NObj = 3
   Vals = {1, 2}
   MaxVer = 3
-  MaxKills = 2
-  MaxRuns = 4
+  MaxKills = 3
+  MaxRuns = 5
   Variant = "code"
 INVARIANTS TypeOK C24_ReportedMeansEqual NoTornReported MarkedWhileDirty
 CHECK_DEADLOCK FALSE
